@@ -433,6 +433,97 @@ fn run(op: &Value) -> Value {
                 .into_iter().map(|(k, v)| (k.to_string(), v.to_string())).collect();
             json!({"ok": params == want, "params": format!("{:?}", params)})
         }
+        "loopback_gen" => {
+            // C04: the client emitted by the real generator wired to the #[conjure_endpoints] trait emitted by the real generator
+            use conjure_http::client::{Client, RequestBody, Service as ClientService};
+            use conjure_http::server::{ConjureRuntime, Endpoint, PathSegment, ResponseBody, Service};
+            use std::sync::{Arc, Mutex};
+            use verif_service::gen::p::{Gsvc, GsvcClient, GsvcEndpoints};
+            type Items = std::vec::IntoIter<Result<bytes::Bytes, conjure_error::Error>>;
+            struct H(Arc<Mutex<Vec<Value>>>, String);
+            impl Gsvc for H {
+                fn g1(&self, auth_: BearerToken, path_arg: i32, query_arg: String, header_arg: i32) -> Result<(), conjure_error::Error> {
+                    self.0.lock().unwrap().push(json!({"endpoint": "g1", "path_arg": path_arg, "query_arg": tohex(query_arg.as_bytes()), "header_arg": header_arg, "token": auth_.as_str()}));
+                    Ok(())
+                }
+                fn g2(&self, auth_: BearerToken, p: String, opt_arg: Option<i32>, lst_arg: Vec<i32>, bar_arg: Option<String>) -> Result<(), conjure_error::Error> {
+                    self.0.lock().unwrap().push(json!({"endpoint": "g2", "p_arg": tohex(p.as_bytes()), "opt_arg": opt_arg, "lst_arg": lst_arg, "bar_arg": bar_arg.map(|b| tohex(b.as_bytes())), "token": auth_.as_str()}));
+                    Ok(())
+                }
+                fn g3(&self, body_arg: String) -> Result<String, conjure_error::Error> {
+                    self.0.lock().unwrap().push(json!({"endpoint": "g3", "body_arg": tohex(body_arg.as_bytes())}));
+                    Ok(self.1.clone())
+                }
+                fn g4(&self, set_arg: std::collections::BTreeSet<String>, opt_body: Option<String>) -> Result<Option<String>, conjure_error::Error> {
+                    self.0.lock().unwrap().push(json!({"endpoint": "g4", "set_arg": set_arg.iter().map(|x| tohex(x.as_bytes())).collect::<Vec<_>>(), "opt_body": opt_body.map(|b| tohex(b.as_bytes()))}));
+                    Ok(None)
+                }
+            }
+            struct Loop(Vec<Box<dyn Endpoint<Items, Vec<u8>> + Sync + Send>>);
+            impl Client for Loop {
+                type BodyWriter = Vec<u8>;
+                type ResponseBody = Items;
+                fn send(&self, req: http::Request<RequestBody<'_, Vec<u8>>>) -> Result<http::Response<Items>, conjure_error::Error> {
+                    let (parts, body) = req.into_parts();
+                    let body = match body {
+                        RequestBody::Empty => vec![],
+                        RequestBody::Fixed(b) => vec![Ok(b)],
+                        RequestBody::Streaming(mut w) => { let mut buf = vec![]; w.write_body(&mut buf)?; vec![Ok(bytes::Bytes::from(buf))] }
+                    };
+                    let segs: Vec<&str> = parts.uri.path().split('/').skip(1).collect();
+                    for e in &self.0 {
+                        if e.method() != parts.method || e.path().len() != segs.len() { continue; }
+                        let mut pp = conjure_http::PathParams::new();
+                        let mut ok = true;
+                        for (t, s) in e.path().iter().zip(&segs) {
+                            match t {
+                                PathSegment::Literal(l) => ok &= l == s,
+                                PathSegment::Parameter { name, .. } => pp.insert(&**name, *s),
+                            }
+                        }
+                        if !ok { continue; }
+                        let mut sreq = http::Request::new(body.into_iter());
+                        *sreq.method_mut() = parts.method.clone();
+                        *sreq.uri_mut() = parts.uri.clone();
+                        *sreq.headers_mut() = parts.headers.clone();
+                        sreq.extensions_mut().insert(pp);
+                        let mut ext = http::Extensions::new();
+                        let resp = e.handle(sreq, &mut ext)?;
+                        let (rparts, rbody) = resp.into_parts();
+                        let items = match rbody {
+                            ResponseBody::Empty => vec![],
+                            ResponseBody::Fixed(b) => vec![Ok(b)],
+                            ResponseBody::Streaming(w) => { let mut buf = vec![]; w.write_body(&mut buf)?; vec![Ok(bytes::Bytes::from(buf))] }
+                        };
+                        return Ok(http::Response::from_parts(rparts, items.into_iter()));
+                    }
+                    Err(conjure_error::Error::internal_safe("no endpoint matches the request"))
+                }
+            }
+            let calls = Arc::new(Mutex::new(vec![]));
+            let ret = String::from_utf8(hex(op["ret"].as_str().unwrap_or(""))).unwrap_or_default();
+            let svc = GsvcEndpoints::new(H(calls.clone(), ret));
+            let rt = Arc::new(ConjureRuntime::new());
+            let client = <GsvcClient<Loop> as ClientService<Loop>>::new(Loop(Service::endpoints(&svc, &rt)));
+            let s = |k: &str| String::from_utf8(hex(op[k].as_str().unwrap_or(""))).unwrap_or_default();
+            let tok = |k: &str| BearerToken::new(op[k].as_str().unwrap_or("t")).unwrap();
+            let i = |k: &str| op[k].as_i64().unwrap_or(0) as i32;
+            let r = match op["endpoint"].as_str().unwrap() {
+                "g1" => client.g1(&tok("token"), i("path_arg"), &s("query_arg"), i("header_arg")).map(|_| Value::Null),
+                "g2" => {
+                    let bar = if op["bar_arg"].is_null() { None } else { Some(s("bar_arg")) };
+                    let lst: Vec<i32> = op["lst_arg"].as_array().map(|a| a.iter().map(|v| v.as_i64().unwrap() as i32).collect()).unwrap_or_default();
+                    client.g2(&tok("token"), &s("p_arg"), op["opt_arg"].as_i64().map(|v| v as i32), &lst, bar.as_deref()).map(|_| Value::Null)
+                }
+                "g3" => client.g3(&s("body_arg")).map(|v| Value::String(tohex(v.as_bytes()))),
+                _ => return json!({"error": "endpoint"}),
+            };
+            let c = calls.lock().unwrap().clone();
+            match r {
+                Ok(v) => json!({"ok": true, "returned": v, "calls": c}),
+                Err(e) => json!({"ok": false, "calls": c, "cause": e.cause().to_string()}),
+            }
+        }
         "double_map_laws" => {
             // C14: DoubleOps for BTreeMap<i32, f64> on three concrete maps
             use conjure_object::private::DoubleOps;
